@@ -24,7 +24,7 @@ def run_one(patch):
         b = subprocess.run(['go', 'build', './...'], cwd=repo, env=ENV, capture_output=True, text=True)
         if b.returncode != 0:
             return ['DOES NOT COMPILE: ' + b.stderr[:300]]
-        r = subprocess.run(['/verif/bin/ibcheck', '-prop', 'all', '-verif', '/verif', '-repo', repo, '-out', out], capture_output=True, text=True)
+        r = subprocess.run([os.environ.get('IBCHECK', '/verif/bin/ibcheck'), '-prop', 'all', '-verif', '/verif', '-repo', repo, '-out', out], capture_output=True, text=True)
         lines = []
         if r.returncode not in (0, 1):
             lines.append('CHECKER CRASHED (exit %d): %s' % (r.returncode, (r.stderr or r.stdout)[-300:]))
